@@ -26,6 +26,24 @@ mod internal {
         };
     }
 }
+impl crate::parsing::CheckedRule for internal::Rule {
+    fn check(pair: &pest::iterators::Pair<'_, Self>) -> Result<(), String> {
+        match pair.as_rule() {
+            internal::Rule::integer => pair
+                .as_str()
+                .parse::<isize>()
+                .map(|_| ())
+                .map_err(|e| format!("numeral out of range: {e}")),
+            internal::Rule::arity => pair
+                .as_str()
+                .parse::<usize>()
+                .map(|_| ())
+                .map_err(|e| format!("arity out of range: {e}")),
+            _ => Ok(()),
+        }
+    }
+}
+
 
 pub struct PrecomputedTermParser;
 
